@@ -247,6 +247,9 @@ pub fn project(g: &dyn G, labels: &[String]) -> Result<(Abs, VerifSnapshot), Str
     if g.len()? != present.len() {
         return Err(format!("len() = {} but keys() has {} entries", g.len()?, present.len()));
     }
+    if g.is_empty()? != present.is_empty() {
+        return Err(format!("is_empty() = {} but keys() has {} entries", g.is_empty()?, present.len()));
+    }
     let mut edges = vec![vec![]; cap];
     let mut val = vec![None; cap];
     let mut st = vec![0u8; cap];
